@@ -478,3 +478,430 @@ End Sound.
 Theorem eval_const_sound : forall e c rho v,
   agrees c rho -> unshadowed rho -> in_guard c e = true -> eval_const c e = CVal v -> peval rho e = Ok v.
 Proof. intros e c rho v Ha Hu. apply eval_const_sound_at; assumption. Qed.
+
+(* ------------------------------------------------------------------ *)
+(* the guard clauses are forced: witnesses *)
+Definition e_max_single : pexpr := ECall n_max [EList [EInt 3; EInt 1]] [].     (* max([3, 1]) *)
+Lemma minmax_single_refuted :
+  exists e v, eval_const [] e = CVal v /\ peval [] e = Ok (VInt 3) /\ v <> VInt 3.
+Proof. exists e_max_single, (VList [VInt 3; VInt 1]). vm_compute. repeat split; congruence. Qed.
+
+Definition e_uadd_bool : pexpr := EUn UAdd (EBool true).                        (* +True *)
+Lemma uadd_identity_refuted :
+  exists e v, eval_const [] e = CVal v /\ peval [] e = Ok (VInt 1) /\ v <> VInt 1.
+Proof. exists e_uadd_bool, (VBool true). vm_compute. repeat split; congruence. Qed.
+
+(* len = 7 at run time (a user definition named like a builtin): the fold ignores it *)
+Lemma shadowed_builtin_refuted :
+  exists e c rho v, agrees c rho /\ in_guard c e = true /\ eval_const c e = CVal v /\ peval rho e <> Ok v.
+Proof.
+  exists (ECall n_len [EStr [97;98;99]] []), [], [(n_len, VInt 7)], (VInt 3).
+  split; [intros x v H; discriminate|]. vm_compute. repeat split; congruence.
+Qed.
+
+(* ------------------------------------------------------------------ *)
+(* _expr_has_name / closedness of what the _resolve_*_arg call sites fold *)
+Definition h_any := fix any (l : list pexpr) : bool := match l with [] => false | x :: r => has_name x || any r end.
+
+Lemma hn_bin op a b : has_name (EBin op a b) = has_name a || has_name b. Proof. reflexivity. Qed.
+Lemma hn_boolop op vs : has_name (EBoolOp op vs) = h_any vs. Proof. reflexivity. Qed.
+Lemma hn_cmp l ops rs : has_name (ECompare l ops rs) = has_name l || h_any rs. Proof. reflexivity. Qed.
+Lemma hn_if x a b : has_name (EIfExp x a b) = has_name x || has_name a || has_name b. Proof. reflexivity. Qed.
+Lemma hn_joined ps : has_name (EJoined ps) = h_any ps. Proof. reflexivity. Qed.
+Lemma hn_fmt ok v : has_name (EFmt ok v) = negb ok || has_name v. Proof. reflexivity. Qed.
+Lemma hn_call f args kws : has_name (ECall f args kws) = true \/ h_any args = false.
+Proof.
+  cbn [has_name]. fold h_any. destruct (negb (tmem f safe_name_references)); [left; reflexivity|].
+  destruct (h_any args); [left; reflexivity|right; reflexivity].
+Qed.
+Lemma hn_list es : has_name (EList es) = h_any es. Proof. reflexivity. Qed.
+Lemma hn_tuple es : has_name (ETuple es) = h_any es. Proof. reflexivity. Qed.
+
+Lemma bindC_ext {A B} (r : cr A) (f g : A -> cr B) : (forall a, f a = g a) -> bindC r f = bindC r g.
+Proof. intro H. destruct r; cbn; auto. Qed.
+
+Lemma binds_safe_none c x : binds_safe_name c = false -> tmem x safe_name_references = true -> tlookup x c = None.
+Proof.
+  unfold binds_safe_name. intros H T. apply tmem_In in T.
+  destruct (tlookup x c) eqn:L; [|reflexivity].
+  assert (existsb (fun x => match tlookup x c with Some _ => true | None => false end) safe_name_references = true).
+  { apply existsb_exists. exists x. rewrite L. auto. }
+  congruence.
+Qed.
+
+Section Closed.
+  Variable c : cenv.
+  Hypothesis Hc : binds_safe_name c = false.
+  Definition nf_at (e : pexpr) : Prop := has_name e = false -> eval_const c e = eval_const [] e.
+
+  Lemma nf_evals l : Forall nf_at l -> h_any l = false -> c_evals c l = c_evals [] l.
+  Proof.
+    induction 1 as [|x r Hx Hr IH]; cbn; intro H; [reflexivity|].
+    apply orb_false_iff in H as [H1 H2]. rewrite (Hx H1). apply bindC_ext. intro v. rewrite (IH H2). reflexivity.
+  Qed.
+  Lemma nf_evand l : Forall nf_at l -> h_any l = false -> forall r0, c_evand c l r0 = c_evand [] l r0.
+  Proof.
+    induction 1 as [|x r Hx Hr IH]; cbn; intros H r0; [reflexivity|].
+    apply orb_false_iff in H as [H1 H2]. rewrite (Hx H1). destruct (truthy r0); [|apply IH; exact H2].
+    apply bindC_ext. intro v. apply IH. exact H2.
+  Qed.
+  Lemma nf_evor l : Forall nf_at l -> h_any l = false -> forall r0, c_evor c l r0 = c_evor [] l r0.
+  Proof.
+    induction 1 as [|x r Hx Hr IH]; cbn; intros H r0; [reflexivity|].
+    apply orb_false_iff in H as [H1 H2]. rewrite (Hx H1). destruct (truthy r0); [apply IH; exact H2|].
+    apply bindC_ext. intro v. apply IH. exact H2.
+  Qed.
+  Lemma nf_chain rs : Forall nf_at rs -> h_any rs = false -> forall left ops, c_chain c left ops rs = c_chain [] left ops rs.
+  Proof.
+    induction 1 as [|x r Hx Hr IH]; cbn; intros H left ops; [reflexivity|].
+    apply orb_false_iff in H as [H1 H2]. destruct ops as [|op ops]; [reflexivity|].
+    rewrite (Hx H1). apply bindC_ext. intro rv. apply bindC_ext. intros [|]; [apply IH; exact H2|reflexivity].
+  Qed.
+  Lemma nf_joined ps : Forall (fmt_inner nf_at) ps -> h_any ps = false -> c_joined c ps = c_joined [] ps.
+  Proof.
+    induction 1 as [|p r Hp Hr IH]; cbn; intro H; [reflexivity|].
+    apply orb_false_iff in H as [H1 H2]. rewrite (IH H2).
+    assert (E : c_part c p = c_part [] p).
+    { destruct p; try reflexivity. cbn. rewrite hn_fmt in H1. apply orb_false_iff in H1 as [Hk Hv].
+      destruct ok; [|reflexivity]. cbn in Hp. rewrite (Hp Hv). reflexivity. }
+    rewrite E. reflexivity.
+  Qed.
+  Lemma nf_mm r : Forall nf_at r -> h_any r = false -> forall w best, c_mm c w best r = c_mm [] w best r.
+  Proof.
+    induction 1 as [|x r Hx Hr IH]; cbn; intros H w best; [reflexivity|].
+    apply orb_false_iff in H as [H1 H2]. rewrite (Hx H1). apply bindC_ext. intro v. apply bindC_ext. intro b. apply IH. exact H2.
+  Qed.
+
+  Lemma namefree_at : forall e, nf_at e.
+  Proof.
+    induction e using pexpr_ind2; unfold nf_at in *; intro Hn; try reflexivity.
+    - (* EName *) cbn in Hn. apply negb_false_iff in Hn. cbn. rewrite (binds_safe_none _ _ Hc Hn). reflexivity.
+    - rewrite hn_bin in Hn. apply orb_false_iff in Hn as [H1 H2]. rewrite !ec_bin, (IHe1 H1), (IHe2 H2). reflexivity.
+    - cbn in Hn. rewrite !ec_un, (IHe Hn). reflexivity.
+    - rewrite hn_boolop in Hn. destruct op; [rewrite !ec_and; apply nf_evand|rewrite !ec_or; apply nf_evor]; assumption.
+    - rewrite hn_cmp in Hn. apply orb_false_iff in Hn as [H1 H2]. rewrite !ec_cmp, (IHe H1).
+      destruct ops; [reflexivity|]. apply bindC_ext. intro lv. apply nf_chain; assumption.
+    - rewrite hn_if in Hn. apply orb_false_iff in Hn as [Hn H3]. apply orb_false_iff in Hn as [H1 H2].
+      rewrite !ec_if, (IHe1 H1), (IHe2 H2), (IHe3 H3). reflexivity.
+    - rewrite hn_joined in Hn. rewrite !ec_joined, (nf_joined ps H0 Hn). reflexivity.
+    - (* ECall *) destruct (hn_call f args kws) as [Hc'|Ha]; [congruence|].
+      rewrite !ec_call. destruct kws; [|reflexivity]. destruct args as [|a r]; [reflexivity|].
+      inversion H as [|? ? Pa Pr]; subst. cbn in Ha. apply orb_false_iff in Ha as [H1 H2].
+      rewrite (Pa H1).
+      repeat match goal with |- (if ?b then _ else _) = _ => destruct b end; try reflexivity;
+        apply bindC_ext; intro v; apply nf_mm; assumption.
+    - rewrite hn_list in Hn. rewrite !ec_list, (nf_evals es H Hn). reflexivity.
+    - rewrite hn_tuple in Hn. rewrite !ec_tuple, (nf_evals es H Hn). reflexivity.
+  Qed.
+End Closed.
+
+Theorem namefree_closed : forall e c,
+  has_name e = false -> binds_safe_name c = false -> eval_const c e = eval_const [] e.
+Proof. intros e c Hn Hc. apply namefree_at; assumption. Qed.
+
+(* a variable named like a builtin is not counted as a name: the fold then depends on the environment *)
+Lemma safe_name_variable_refuted :
+  exists e c v, has_name e = false /\ eval_const c e = CVal v /\ eval_const [] e = CFail KValue.
+Proof. exists (EName n_len), [(n_len, Known (VInt 250))], (VInt 250). vm_compute. auto. Qed.
+
+Corollary resolve_numeric_closed : forall e c,
+  binds_safe_name c = false -> resolve_numeric c e = resolve_numeric [] e.
+Proof.
+  intros e c Hc. unfold resolve_numeric. destruct (has_name e) eqn:Hn; [reflexivity|].
+  rewrite (namefree_closed e c Hn Hc). reflexivity.
+Qed.
+
+(* ------------------------------------------------------------------ *)
+(* _literal_length *)
+Theorem literal_length_sound : forall c rho e n v,
+  agrees c rho -> literal_length c e = Some n -> peval rho e = Ok v -> py_call n_len [v] = Ok (VInt n).
+Proof.
+  intros c rho e n v Ha Hl Hp. destruct e; cbn in Hl; try discriminate.
+  - inversion Hl; subst. cbn in Hp. inversion Hp. reflexivity.
+  - destruct (tlookup x c) as [[w|]|] eqn:L; try discriminate.
+    cbn in Hp. rewrite (Ha _ _ L) in Hp. inversion Hp; subst.
+    destruct v; inversion Hl; reflexivity.
+  - inversion Hl; subst. rewrite pe_list in Hp.
+    destruct (p_evals rho elts) as [vs|] eqn:E; cbn in Hp; [|discriminate]. inversion Hp; subst.
+    rewrite <- (p_evals_length _ _ _ E). reflexivity.
+  - inversion Hl; subst. rewrite pe_tuple in Hp.
+    destruct (p_evals rho elts) as [vs|] eqn:E; cbn in Hp; [|discriminate]. inversion Hp; subst.
+    rewrite <- (p_evals_length _ _ _ E). reflexivity.
+Qed.
+
+(* ------------------------------------------------------------------ *)
+(* C11: the effect-instrumented evaluator *)
+Definition f_evals (c : cenv) := fix evals (l : list pexpr) : fx (list pval) :=
+  match l with
+  | [] => pure (CVal [])
+  | x :: r => df v <- eval_const_fx c x; df vs <- evals r; pure (CVal (v :: vs))
+  end.
+Definition f_evand (c : cenv) := fix evand (l : list pexpr) (result : pval) : fx pval :=
+  match l with
+  | [] => pure (CVal result)
+  | x :: r => after PTruth (if truthy result then df v <- eval_const_fx c x; evand r v else evand r result)
+  end.
+Definition f_evor (c : cenv) := fix evor (l : list pexpr) (result : pval) : fx pval :=
+  match l with
+  | [] => pure (CVal result)
+  | x :: r => after PTruth (if truthy result then evor r result else df v <- eval_const_fx c x; evor r v)
+  end.
+Definition f_chain (c : cenv) := fix chain (left : pval) (ops : list cmpop) (rs : list pexpr) {struct rs} : fx pval :=
+  match rs, ops with
+  | r :: rs', op :: ops' =>
+      df rv <- eval_const_fx c r;
+      df b <- cmp_step_fx op left rv;
+      if b then chain rv ops' rs' else pure (CVal (VBool false))
+  | _, _ => pure (CVal (VBool true))
+  end.
+Definition f_part (c : cenv) (p : pexpr) : fx text :=
+  match p with
+  | EStr s => pure (CVal s)
+  | EFmt ok v => if ok then df x <- eval_const_fx c v; doing PStr (str_step x) else pure (CFail KValue)
+  | _ => pure (CFail KValue)
+  end.
+Definition f_joined (c : cenv) := fix joined (ps : list pexpr) : fx text :=
+  match ps with
+  | [] => pure (CVal [])
+  | p :: r => df s <- f_part c p; df t <- joined r; pure (CVal (s ++ t))
+  end.
+Definition f_mm (c : cenv) := fix mm (want_max : bool) (best : pval) (rest : list pexpr) {struct rest} : fx pval :=
+  match rest with
+  | [] => pure (CVal best)
+  | x :: r =>
+      df v <- eval_const_fx c x;
+      df b <- doing PCompare (lift (py_cmp (if want_max then PyAst.Gt else PyAst.Lt) v best));
+      mm want_max (if b then v else best) r
+  end.
+
+Lemma fe_bin c op a b : eval_const_fx c (EBin op a b) =
+  if in_bin op then df x <- eval_const_fx c a; df y <- eval_const_fx c b; apply_bin_fx op x y else pure (CFail KValue).
+Proof. reflexivity. Qed.
+Lemma fe_un c op a : eval_const_fx c (EUn op a) =
+  if in_un op then df v <- eval_const_fx c a; un_step_fx op v else pure (CFail KValue).
+Proof. reflexivity. Qed.
+Lemma fe_and c vs : eval_const_fx c (EBoolOp And vs) = f_evand c vs (VBool true). Proof. reflexivity. Qed.
+Lemma fe_or c vs : eval_const_fx c (EBoolOp Or vs) = f_evor c vs (VBool false). Proof. reflexivity. Qed.
+Lemma fe_cmp c l ops rs : eval_const_fx c (ECompare l ops rs) =
+  match ops with [] => pure (CFail KValue) | _ => df lv <- eval_const_fx c l; f_chain c lv ops rs end.
+Proof. reflexivity. Qed.
+Lemma fe_if c x a b : eval_const_fx c (EIfExp x a b) =
+  df cv <- eval_const_fx c x; after PTruth (if truthy cv then eval_const_fx c a else eval_const_fx c b).
+Proof. reflexivity. Qed.
+Lemma fe_joined c ps : eval_const_fx c (EJoined ps) = df s <- f_joined c ps; pure (CVal (VStr s)).
+Proof. reflexivity. Qed.
+Lemma fe_call c f args kws : eval_const_fx c (ECall f args kws) =
+  match kws, args with
+  | [], a :: r =>
+      if is_nil r && tmem f safe_casts then df v <- eval_const_fx c a; doing (PCast f) (cast f v)
+      else if is_nil r && text_eqb f n_len then df v <- eval_const_fx c a; len_step_fx v
+      else if is_nil r && text_eqb f n_abs then df v <- eval_const_fx c a; abs_step_fx v
+      else if text_eqb f n_max then after PMinMax (df v <- eval_const_fx c a; f_mm c true v r)
+      else if text_eqb f n_min then after PMinMax (df v <- eval_const_fx c a; f_mm c false v r)
+      else pure (CFail KValue)
+  | _, _ => pure (CFail KValue)
+  end.
+Proof. reflexivity. Qed.
+Lemma fe_list c es : eval_const_fx c (EList es) = df vs <- f_evals c es; pure (CVal (VList vs)).
+Proof. reflexivity. Qed.
+Lemma fe_tuple c es : eval_const_fx c (ETuple es) = df vs <- f_evals c es; pure (CVal (VTuple vs)).
+Proof. reflexivity. Qed.
+
+Lemma fst_bindF {A B} (m : fx A) (f : A -> fx B) : fst (bindF m f) = bindC (fst m) (fun a => fst (f a)).
+Proof. destruct m as [[a|k|] t]; cbn; [destruct (f a); reflexivity|reflexivity|reflexivity]. Qed.
+Lemma fst_after {A} p (m : fx A) : fst (after p m) = fst m.
+Proof. destruct m; reflexivity. Qed.
+Lemma bindC_cong {A B} (r r' : cr A) (f g : A -> cr B) : r = r' -> (forall a, f a = g a) -> bindC r f = bindC r' g.
+Proof. intros -> H. apply bindC_ext. exact H. Qed.
+
+(* the instrumented evaluator computes the same result *)
+Section Erase.
+  Variable c : cenv.
+  Definition er_at (e : pexpr) : Prop := fst (eval_const_fx c e) = eval_const c e.
+
+  Lemma er_evals l : Forall er_at l -> fst (f_evals c l) = c_evals c l.
+  Proof.
+    induction 1 as [|x r Hx Hr IH]; cbn [f_evals c_evals]; [reflexivity|].
+    rewrite fst_bindF. apply bindC_cong; [exact Hx|]. intro v. rewrite fst_bindF. apply bindC_cong; [exact IH|]. reflexivity.
+  Qed.
+  Lemma er_evand l : Forall er_at l -> forall r0, fst (f_evand c l r0) = c_evand c l r0.
+  Proof.
+    induction 1 as [|x r Hx Hr IH]; cbn [f_evand c_evand]; intro r0; [reflexivity|].
+    rewrite fst_after. destruct (truthy r0); [|apply IH].
+    rewrite fst_bindF. apply bindC_cong; [exact Hx|]. intro v. apply IH.
+  Qed.
+  Lemma er_evor l : Forall er_at l -> forall r0, fst (f_evor c l r0) = c_evor c l r0.
+  Proof.
+    induction 1 as [|x r Hx Hr IH]; cbn [f_evor c_evor]; intro r0; [reflexivity|].
+    rewrite fst_after. destruct (truthy r0); [apply IH|].
+    rewrite fst_bindF. apply bindC_cong; [exact Hx|]. intro v. apply IH.
+  Qed.
+  Lemma er_chain rs : Forall er_at rs -> forall left ops, fst (f_chain c left ops rs) = c_chain c left ops rs.
+  Proof.
+    induction 1 as [|x r Hx Hr IH]; cbn [f_chain c_chain]; intros left ops; [reflexivity|].
+    destruct ops as [|op ops]; [reflexivity|].
+    rewrite fst_bindF. apply bindC_cong; [exact Hx|]. intro rv.
+    rewrite fst_bindF. apply bindC_cong; [reflexivity|]. intros [|]; [apply IH|reflexivity].
+  Qed.
+  Lemma er_joined ps : Forall (fmt_inner er_at) ps -> fst (f_joined c ps) = c_joined c ps.
+  Proof.
+    induction 1 as [|p r Hp Hr IH]; cbn [f_joined c_joined]; [reflexivity|].
+    rewrite fst_bindF. apply bindC_cong.
+    - destruct p; try reflexivity. cbn [f_part c_part]. destruct ok; [|reflexivity].
+      rewrite fst_bindF. apply bindC_cong; [exact Hp|]. reflexivity.
+    - intro s. rewrite fst_bindF. apply bindC_cong; [exact IH|]. reflexivity.
+  Qed.
+  Lemma er_mm r : Forall er_at r -> forall w best, fst (f_mm c w best r) = c_mm c w best r.
+  Proof.
+    induction 1 as [|x r Hx Hr IH]; cbn [f_mm c_mm]; intros w best; [reflexivity|].
+    rewrite fst_bindF. apply bindC_cong; [exact Hx|]. intro v.
+    rewrite fst_bindF. apply bindC_cong; [reflexivity|]. intro b. apply IH.
+  Qed.
+
+  Lemma erase_at : forall e, er_at e.
+  Proof.
+    induction e using pexpr_ind2; unfold er_at in *; try reflexivity.
+    - rewrite fe_bin, ec_bin. destruct (in_bin op); [|reflexivity].
+      rewrite fst_bindF. apply bindC_cong; [exact IHe1|]. intro x.
+      rewrite fst_bindF. apply bindC_cong; [exact IHe2|]. reflexivity.
+    - rewrite fe_un, ec_un. destruct (in_un op); [|reflexivity].
+      rewrite fst_bindF. apply bindC_cong; [exact IHe|]. reflexivity.
+    - destruct op; [rewrite fe_and, ec_and; apply er_evand|rewrite fe_or, ec_or; apply er_evor]; assumption.
+    - rewrite fe_cmp, ec_cmp. destruct ops; [reflexivity|].
+      rewrite fst_bindF. apply bindC_cong; [exact IHe|]. intro lv. apply er_chain. assumption.
+    - rewrite fe_if, ec_if. rewrite fst_bindF. apply bindC_cong; [exact IHe1|]. intro cv.
+      rewrite fst_after. destruct (truthy cv); assumption.
+    - rewrite fe_joined, ec_joined. rewrite fst_bindF. apply bindC_cong; [apply er_joined; assumption|]. reflexivity.
+    - rewrite fe_call, ec_call. destruct kws; [|reflexivity]. destruct args as [|a r]; [reflexivity|].
+      inversion H as [|? ? Pa Pr]; subst.
+      repeat match goal with |- fst (if ?b then _ else _) = _ => destruct b end; try reflexivity;
+        rewrite ?fst_after, fst_bindF; (apply bindC_cong; [exact Pa|]); intro v; try reflexivity; apply er_mm; assumption.
+    - rewrite fe_list, ec_list. rewrite fst_bindF. apply bindC_cong; [apply er_evals; assumption|]. reflexivity.
+    - rewrite fe_tuple, ec_tuple. rewrite fst_bindF. apply bindC_cong; [apply er_evals; assumption|]. reflexivity.
+  Qed.
+End Erase.
+
+Theorem eval_const_fx_fst : forall c e, fst (eval_const_fx c e) = eval_const c e.
+Proof. intros c e. apply erase_at. Qed.
+
+(* every primitive performed is on the whitelist of the current source *)
+Lemma wl_bindF {A B} (m : fx A) (f : A -> fx B) :
+  Forall allowed (snd m) -> (forall a, Forall allowed (snd (f a))) -> Forall allowed (snd (bindF m f)).
+Proof.
+  destruct m as [[a|k|] t]; cbn; intros Ht Hf; try exact Ht.
+  specialize (Hf a). destruct (f a) as [r t']. cbn in *. apply Forall_app. split; assumption.
+Qed.
+Lemma wl_after {A} p (m : fx A) : allowed p -> Forall allowed (snd m) -> Forall allowed (snd (after p m)).
+Proof. destruct m. cbn. intros. constructor; assumption. Qed.
+Lemma wl_pure {A} (r : cr A) : Forall allowed (snd (pure r)).
+Proof. constructor. Qed.
+Lemma wl_doing {A} p (r : cr A) : allowed p -> Forall allowed (snd (doing p r)).
+Proof. cbn. intro. constructor; [assumption|constructor]. Qed.
+
+Section White.
+  Variable c : cenv.
+  Definition wl_at (e : pexpr) : Prop := Forall allowed (snd (eval_const_fx c e)).
+
+  Lemma wl_evals l : Forall wl_at l -> Forall allowed (snd (f_evals c l)).
+  Proof.
+    induction 1 as [|x r Hx Hr IH]; cbn [f_evals]; [apply wl_pure|].
+    apply wl_bindF; [exact Hx|]. intro v. apply wl_bindF; [exact IH|]. intro. apply wl_pure.
+  Qed.
+  Lemma wl_evand l : Forall wl_at l -> forall r0, Forall allowed (snd (f_evand c l r0)).
+  Proof.
+    induction 1 as [|x r Hx Hr IH]; cbn [f_evand]; intro r0; [apply wl_pure|].
+    apply wl_after; [exact I|]. destruct (truthy r0); [|apply IH]. apply wl_bindF; [exact Hx|]. intro v. apply IH.
+  Qed.
+  Lemma wl_evor l : Forall wl_at l -> forall r0, Forall allowed (snd (f_evor c l r0)).
+  Proof.
+    induction 1 as [|x r Hx Hr IH]; cbn [f_evor]; intro r0; [apply wl_pure|].
+    apply wl_after; [exact I|]. destruct (truthy r0); [apply IH|]. apply wl_bindF; [exact Hx|]. intro v. apply IH.
+  Qed.
+  Lemma wl_chain rs : Forall wl_at rs -> forall left ops, Forall allowed (snd (f_chain c left ops rs)).
+  Proof.
+    induction 1 as [|x r Hx Hr IH]; cbn [f_chain]; intros left ops; [apply wl_pure|].
+    destruct ops as [|op ops]; [apply wl_pure|].
+    apply wl_bindF; [exact Hx|]. intro rv. apply wl_bindF.
+    - unfold cmp_step_fx. cbn [snd]. destruct (cmp_known op); [constructor; [exact I|constructor]|constructor].
+    - intros [|]; [apply IH|apply wl_pure].
+  Qed.
+  Lemma wl_joined ps : Forall (fmt_inner wl_at) ps -> Forall allowed (snd (f_joined c ps)).
+  Proof.
+    induction 1 as [|p r Hp Hr IH]; cbn [f_joined]; [apply wl_pure|].
+    apply wl_bindF.
+    - destruct p; try apply wl_pure. cbn [f_part]. destruct ok; [|apply wl_pure].
+      apply wl_bindF; [exact Hp|]. intro. apply wl_doing. exact I.
+    - intro s. apply wl_bindF; [exact IH|]. intro. apply wl_pure.
+  Qed.
+  Lemma wl_mm r : Forall wl_at r -> forall w best, Forall allowed (snd (f_mm c w best r)).
+  Proof.
+    induction 1 as [|x r Hx Hr IH]; cbn [f_mm]; intros w best; [apply wl_pure|].
+    apply wl_bindF; [exact Hx|]. intro v. apply wl_bindF; [apply wl_doing; exact I|]. intro b. apply IH.
+  Qed.
+
+  Lemma whitelist_at : forall e, wl_at e.
+  Proof.
+    induction e using pexpr_ind2; unfold wl_at in *; try apply wl_pure.
+    - cbn. repeat constructor.
+    - rewrite fe_bin. destruct (in_bin op) eqn:Ib; [|apply wl_pure].
+      apply wl_bindF; [exact IHe1|]. intro x. apply wl_bindF; [exact IHe2|]. intro y.
+      unfold apply_bin_fx. cbn [snd].
+      match goal with |- Forall _ (if ?b then _ else _) => destruct b end; repeat constructor. exact Ib.
+    - rewrite fe_un. destruct (in_un op); [|apply wl_pure].
+      apply wl_bindF; [exact IHe|]. intro v. destruct op; cbn; repeat constructor.
+    - destruct op; [rewrite fe_and; apply wl_evand|rewrite fe_or; apply wl_evor]; assumption.
+    - rewrite fe_cmp. destruct ops; [apply wl_pure|]. apply wl_bindF; [exact IHe|]. intro lv. apply wl_chain. assumption.
+    - rewrite fe_if. apply wl_bindF; [exact IHe1|]. intro cv. apply wl_after; [exact I|]. destruct (truthy cv); assumption.
+    - rewrite fe_joined. apply wl_bindF; [apply wl_joined; assumption|]. intro. apply wl_pure.
+    - rewrite fe_call. destruct kws; [|apply wl_pure]. destruct args as [|a r]; [apply wl_pure|].
+      inversion H as [|? ? Pa Pr]; subst.
+      destruct (is_nil r && tmem f safe_casts) eqn:T1.
+      { apply andb_true_iff in T1 as [_ Tm]. apply tmem_In in Tm.
+        apply wl_bindF; [exact Pa|]. intro v. apply wl_doing. exact Tm. }
+      destruct (is_nil r && text_eqb f n_len).
+      { apply wl_bindF; [exact Pa|]. intro v. destruct v; cbn; repeat constructor. }
+      destruct (is_nil r && text_eqb f n_abs).
+      { apply wl_bindF; [exact Pa|]. intro v. unfold abs_step_fx. cbn [snd]. destruct (is_numv v); repeat constructor. }
+      destruct (text_eqb f n_max).
+      { apply wl_after; [exact I|]. apply wl_bindF; [exact Pa|]. intro v. apply wl_mm. assumption. }
+      destruct (text_eqb f n_min); [|apply wl_pure].
+      { apply wl_after; [exact I|]. apply wl_bindF; [exact Pa|]. intro v. apply wl_mm. assumption. }
+    - rewrite fe_list. apply wl_bindF; [apply wl_evals; assumption|]. intro. apply wl_pure.
+    - rewrite fe_tuple. apply wl_bindF; [apply wl_evals; assumption|]. intro. apply wl_pure.
+  Qed.
+End White.
+
+Theorem whitelist : forall e c p, In p (snd (eval_const_fx c e)) -> allowed p.
+Proof. intros e c p H. pose proof (whitelist_at c e) as W. unfold wl_at in W. rewrite Forall_forall in W. auto. Qed.
+
+Theorem safe_casts_pure : forall f, In f safe_casts -> In f pure_casts.
+Proof.
+  intros f H. pose proof generated_casts_pure as G. rewrite forallb_forall in G.
+  apply tmem_In. apply G. exact H.
+Qed.
+
+(* a rejected node kind is rejected at once: nothing below it is evaluated, no primitive is performed *)
+Theorem no_eval_of_unsupported : forall e c,
+  unsupported_head e = true -> eval_const_fx c e = (CFail KValue, []).
+Proof.
+  intros e c H. destruct e; cbn [unsupported_head] in H; try discriminate; try reflexivity.
+  - rewrite fe_bin. apply negb_true_iff in H. rewrite H. reflexivity.
+  - rewrite fe_un. apply negb_true_iff in H. rewrite H. reflexivity.
+  - destruct ops; [|discriminate]. reflexivity.
+  - rewrite fe_call. destruct kws; [|destruct args; reflexivity]. destruct args as [|a r]; [reflexivity|].
+    destruct (is_nil r), (tmem f safe_casts), (text_eqb f n_len), (text_eqb f n_abs), (text_eqb f n_max), (text_eqb f n_min);
+      cbn in H; try discriminate; reflexivity.
+Qed.
+
+Corollary value_has_supported_head : forall e c v, eval_const c e = CVal v -> unsupported_head e = false.
+Proof.
+  intros e c v H. destruct (unsupported_head e) eqn:U; [|reflexivity].
+  pose proof (no_eval_of_unsupported e c U) as N. rewrite <- eval_const_fx_fst, N in H. discriminate.
+Qed.
+
+(* non-vacuity: a hostile call inside an argument is never reached *)
+Example no_eval_example :
+  eval_const_fx [] (ECall [111;115] [EBin Add (EInt 1) (EInt 1)] []) = (CFail KValue, []) /\
+  eval_const_fx [] (EBin Add (EInt 1) (EMethod (EName [120]) [121] [EBin Add (EInt 1) (EInt 1)] [])) = (CFail KValue, []) /\
+  snd (eval_const_fx [] (EBin Add (EInt 1) (EInt 1))) = [PArith Add].
+Proof. vm_compute. auto. Qed.
